@@ -46,6 +46,10 @@ def _decode_escape_sequence(  # noqa: PLR0911
         return "\r", index
     if ch == "t":
         return "\t", index
+    if ch == "0":
+        return "\0", index
+    if ch in ("'", '"'):
+        return ch, index
     if ch == "x":
         digits = value[index + 1 : index + 3]
         if len(digits) != 2:  # noqa: PLR2004
@@ -87,9 +91,9 @@ def _decode_hex_char(value: str, index: int, token: Token) -> tuple[int, int]:
         raise PestGrammarSyntaxError("unclosed Unicode escape sequence", token=token)
 
     hex_digit_length = closing_brace_index - index
-    if hex_digit_length not in (2, 4, 6):
+    if not 2 <= hex_digit_length <= 6:  # noqa: PLR2004
         raise PestGrammarSyntaxError(
-            "expected \\u{00}, \\u{0000} or \\u{000000}", token=token
+            "expected two to six hexadecimal digits in \\u{...}", token=token
         )
 
     codepoint = _parse_hex_digits(value[index : index + hex_digit_length], token)
